@@ -38,6 +38,8 @@ def gen_world(rng, prop, long_dim=False):
         else:
             items = [f"{letter}{j}x" for j in range(ln)]
             dt = "str" if kind == "str" else None
+            if kind == "str" and rng.chance(0.25):
+                items = [str(3000 + 100 * k + j) for j in range(ln)]  # a str-typed dimension with number-like items
         if len(items) >= 2 and rng.chance(0.4):
             items = rng.shuffled(items)  # items are labels: their order in the dimension need not be ascending
         dims.append({"letter": letter, "name": NAMES[letter], "items": items, "dtype": dt})
@@ -64,8 +66,13 @@ def gen_world(rng, prop, long_dim=False):
         layout["header"] = rng.choice(["names", "letters"])
     if wide is not None and dims[wide]["dtype"] is None and isinstance(dims[wide]["items"][0], int):
         medium = "df"  # nothing in a text file says that the column headers are ints
+    if any(d["dtype"] == "str" and str(d["items"][0]).isdigit() for d in dims):
+        medium = "df"  # number-like text labels do not survive pandas' CSV / Excel type inference (a blank cell turns "3302" into 3302.0)
     consumer = rng.choice(["from_df", "set_values_from_df"]) if medium in ("df", "csv") else "from_df"
     flags = [False, False] if prop == "C11" else [rng.chance(0.4), rng.chance(0.4)]
+    # typed dimensions promise a conversion of the labels found in the table: ints written as text, number-like strings given as ints
+    layout["label_repr"] = {d["name"]: (rng.choice(["native", "native", "converted"]) if d["dtype"] in ("int", "str") else "native") for d in dims}
+    layout["row_index"] = rng.weighted([("range", 4), ("permuted", 2), ("offset", 1)])
     return {"dims": dims, "zeros": zeros, "vseed": rng.randint(0, 10 ** 6), "layout": layout, "medium": medium,
             "consumer": consumer, "flags": flags, "storage": rng.weighted([("C", 3), ("F", 2), ("einsum_view", 2), ("sliced", 1)])}
 
@@ -178,7 +185,33 @@ def style_headers(frame, world, dims, rng_bits):
             c["header"] = world["layout"]["value_name"]
 
 
-def to_dataframe(frame, index):
+def to_dataframe(frame, index, layout=None, dims=None):
+    df = _to_dataframe(frame, index)
+    if layout is None or dims is None:
+        return df
+    # label representation: what a typed dimension must convert back
+    byname = {d.name: d for d in dims}
+    if not isinstance(df.index, pd.MultiIndex) and df.index.name is None:
+        for c in frame.cols:
+            if c["role"] != "dim" or layout.get("label_repr", {}).get(c["dim"]) != "converted":
+                continue
+            d = byname[c["dim"]]
+            col = df[c["header"]]
+            if col.isna().any():
+                continue
+            if d.dtype is int:
+                df[c["header"]] = [str(int(v)) for v in col]
+            elif d.dtype is str and all(str(v).isdigit() for v in col):
+                df[c["header"]] = [int(v) for v in col]
+        ri = layout.get("row_index", "range")
+        if ri == "permuted" and len(df) > 1:
+            df.index = list(np.random.RandomState(len(df)).permutation(len(df)))
+        elif ri == "offset":
+            df.index = [7 + 3 * i for i in range(len(df))]
+    return df
+
+
+def _to_dataframe(frame, index):
     headers = [c["header"] for c in frame.cols]
     data = {}
     for i, h in enumerate(headers):
@@ -708,7 +741,7 @@ class IoChan(Engine):
         fired = {}
         name = "prm"
         path = None
-        df = to_dataframe(frame, lay["index"])
+        df = to_dataframe(frame, lay["index"], lay, dims)
         read_err = next((f for f in medium_faults if f["f"] == "read_error"), None)
         trunc = next((f for f in medium_faults if f["f"] == "truncate"), None)
         intr = next((f for f in medium_faults if f["f"] == "interrupt"), None)
